@@ -205,6 +205,135 @@ def judge_structured(case) -> Outcome:
     return out
 
 
+# ------------------------------------------------------------------ Structured: merge == recursive dictionary merge; path lookups
+
+
+def gen_merge_value(rng, d, counter):
+    r = rng.random()
+    if d <= 0 or r < 0.45:
+        counter[0] += 1
+        return ["L", counter[0]]
+    if r < 0.7:
+        return {"t": [gen_merge_value(rng, 0, counter) for _ in range(rng.randint(1, 3))]}
+    return {"d": {k: gen_merge_value(rng, d - 1, counter) for k in rng.sample(KEYS, rng.randint(1, 3))}}
+
+
+def gen_merge(rng: random.Random, tier: str) -> dict:
+    counter = [0]
+    return {"objs": [{k: gen_merge_value(rng, 2, counter) for k in rng.sample(KEYS, rng.randint(1, 3))} for _ in range(rng.randint(2, 3))]}
+
+
+def build_lists(v):
+    """Like build(), but leaves are one-element lists (which the default merger concatenates)."""
+    from formulaic.utils.structured import Structured
+
+    if isinstance(v, list):
+        return [v[1]]
+    if "t" in v:
+        return tuple(build_lists(x) for x in v["t"])
+    d = v["d"]
+    kw = {k: build_lists(x) for k, x in d.items() if k != "root"}
+    return Structured(build_lists(d["root"]), **kw) if "root" in d else Structured(**kw)
+
+
+class Misaligned(Exception):
+    pass
+
+
+def model_merge(values):
+    """Reference: merge of JSON model values (leaf lists concatenate, tuples concatenate, dicts merge key-wise)."""
+    if len(values) == 1:
+        return as_plain(values[0])
+    kinds = {"t" if isinstance(v, dict) and "t" in v else "d" if isinstance(v, dict) else "L" for v in values}
+    if "t" in kinds and kinds != {"t"}:
+        raise Misaligned()
+    if kinds == {"t"}:
+        return tuple(as_plain(x) for v in values for x in v["t"])
+    if kinds == {"L"}:
+        return [v[1] for v in values]
+    keys = {}
+    for v in values:
+        if isinstance(v, dict):
+            for k, x in v["d"].items():
+                keys.setdefault(k, []).append(x)
+        else:
+            keys.setdefault("root", []).append(v)
+    return {k: model_merge(xs) for k, xs in keys.items()}
+
+
+def as_plain(v):
+    if isinstance(v, list):
+        return [v[1]]
+    if "t" in v:
+        return tuple(as_plain(x) for x in v["t"])
+    return {k: as_plain(x) for k, x in v["d"].items()}
+
+
+def plain_of(obj):
+    from formulaic.utils.structured import Structured
+
+    if isinstance(obj, Structured):
+        return {k: plain_of(v) for k, v in obj._structure.items()}
+    if isinstance(obj, tuple):
+        return tuple(plain_of(v) for v in obj)
+    return obj
+
+
+def judge_merge(case) -> Outcome:
+    from formulaic.utils.structured import Structured
+
+    out = Outcome()
+    models = [{"d": m} for m in case["objs"]]
+    out.sig = repr([model_skeleton(m) for m in models])
+    objs = [build_lists(m) for m in models]
+    snap = [plain_of(o) for o in objs]
+    try:
+        exp = model_merge(models)
+        misaligned = False
+    except Misaligned:
+        exp, misaligned = None, True
+    try:
+        got = Structured._merge(*objs)
+        if misaligned:
+            out.fail("c19.merge_misaligned_accepted", f"merging {snap} should raise (tuple vs non-tuple substructure) but gave {plain_of(got)}")
+        elif plain_of(got) != exp:
+            out.fail("c19.merge_dict_law", f"merge of {snap} gave {plain_of(got)} expected {exp}")
+    except ValueError as e:
+        if not misaligned:
+            out.fail("c19.merge_raised", f"{snap}: ValueError {e}")
+        else:
+            out.see("misaligned_rejected")
+    except Exception as e:  # noqa: BLE001
+        out.fail("c19.merge_raised", f"{snap}: {type(e).__name__}: {e}")
+    if [plain_of(o) for o in objs] != snap:
+        out.fail("c19.merge_mutated_inputs", "merge changed its arguments")
+    # path lookups on the first object: every leaf reachable by its path; keys by attribute and item
+    s = objs[0]
+
+    def paths(obj, p=()):
+        if isinstance(obj, Structured):
+            for k, v in obj._structure.items():
+                yield from paths(v, p + (k,))
+        elif isinstance(obj, tuple):
+            for i, v in enumerate(obj):
+                yield from paths(v, p + (i,))
+        else:
+            yield p, obj
+
+    for p, leaf in paths(s):
+        try:
+            if s[p] is not leaf:
+                out.fail("c19.path_lookup", f"s[{p}] is not the leaf at that path")
+        except Exception as e:  # noqa: BLE001
+            out.fail("c19.path_lookup", f"s[{p}]: {type(e).__name__}: {e}")
+    for k, v in s._structure.items():
+        if getattr(s, k) is not v or (k in s) is not True:
+            out.fail("c19.key_lookup", f"attribute/contains lookup of key {k!r}")
+    if len(s) != len(list(s)):
+        out.fail("c19.len_iter", "len != number of iterated items")
+    return out
+
+
 # ------------------------------------------------------------------ LayeredMapping
 
 LKEYS = list("abcdef")
@@ -216,7 +345,7 @@ def gen_layered(rng: random.Random, tier: str) -> dict:
     names = [rng.choice([None, f"n{i}"]) for i in range(nl)]
     ops = []
     for step in range(rng.randint(1, 20)):
-        op = rng.choice(["set", "set", "del", "get", "len", "iter", "contains", "layer_name", "with_layers"])
+        op = rng.choice(["set", "set", "del", "get", "len", "iter", "contains", "layer_name", "with_layers", "with_layers_append", "with_layers_inplace"])
         ops.append([op, rng.choice(LKEYS), step])
     return {"layers": layers, "names": names, "ops": ops}
 
@@ -239,9 +368,12 @@ def judge_layered(case) -> Outcome:
                            for layer, n in zip(layers, case["names"])])
     mut: dict = {}
 
+    top_extra: list = []  # layers prepended in place (highest priority below the private layer)
+    bottom_extra: list = []
+
     def view():
         d = {}
-        for layer in reversed(layers):
+        for layer in reversed(top_extra + layers + bottom_extra):
             d.update(layer)
         d.update(mut)
         return d
@@ -305,6 +437,24 @@ def judge_layered(case) -> Outcome:
                     out.fail("c19.layered_with_layers", "with_layers changed the parent")
             except Exception as e:  # noqa: BLE001
                 out.fail("c19.layered_with_layers", f"{type(e).__name__}: {e}")
+        elif op == "with_layers_append":
+            extra = {k: ["x", step], "zq": ["x", step]}
+            lm2 = lm.with_layers(extra, prepend=False)
+            exp = dict(extra)
+            exp.update(v)
+            if dict(lm2) != exp:
+                out.fail("c19.layered_with_layers", f"with_layers(prepend=False) gave {dict(lm2)} expected {exp}")
+            if dict(lm) != v:
+                out.fail("c19.layered_with_layers", "with_layers(prepend=False) changed the parent")
+        elif op == "with_layers_inplace":
+            extra = {k: ["y", step]}
+            pre = step % 2 == 0
+            same_obj = lm.with_layers(extra, prepend=pre, inplace=True)
+            (top_extra if pre else bottom_extra).insert(0 if pre else len(bottom_extra), extra)
+            if same_obj is not lm or dict(lm) != view():
+                out.fail("c19.layered_with_layers", f"with_layers(inplace=True, prepend={pre}) gave {dict(lm)} expected {view()}")
+            if extra != {k: ["y", step]}:
+                out.fail("c19.layered_supplied_layer_mutated", "layer supplied to with_layers(inplace=True) was mutated")
         if layers != snap:
             out.fail("c19.layered_supplied_layer_mutated", f"supplied layers changed: {layers} != {snap} after {op} {k}")
             break
@@ -462,6 +612,7 @@ PINNED = [
 
 SUBS = {
     "structured": Sub(judge=judge_structured, gen=gen_structured, quick=10000, thorough=200_000, min_decided=500),
+    "merge": Sub(judge=judge_merge, gen=gen_merge, quick=4000, thorough=150_000, min_decided=500),
     "layered": Sub(judge=judge_layered, gen=gen_layered, quick=10000, thorough=200_000, min_decided=500),
     "formula": Sub(judge=judge_formula, gen=gen_formula, quick=10000, thorough=200_000, min_decided=500),
 }
